@@ -232,6 +232,9 @@ class SlicesSplit(RewriteRuleClassBase):
             return check_result.fail("Last dimension is not known.")
         if last_dim != e1[0]:
             return check_result.fail("Last dimension is not equal to End1.")
+        if last_dim % 2 != 0:
+            # Split with num_outputs=2 makes the first chunk the larger one.
+            return check_result.fail("Last dimension is not even.")
         if last_dim // 2 != b1[0]:
             return check_result.fail("Last dimension is not equal to Begin1.")
         return check_result
